@@ -13,7 +13,7 @@
 From Coq Require Import List NArith Bool String.
 From FIM Require Import Base.Str Gen.T9Names Model.T9Graph Model.T9Ops Model.T9Check
      Proofs.T9Monad Proofs.T9Simple Proofs.T9Ext Proofs.T9Connect Proofs.T9Refuted Proofs.T9Atomic
-     Proofs.T9Facility Proofs.T9Peer Proofs.T9Component Proofs.T9CompFresh Proofs.T9Final.
+     Proofs.T9Facility Proofs.T9Peer Proofs.T9Component Proofs.T9CompFresh Proofs.T9Final Proofs.T9More.
 Import ListNotations.
 Open Scope N_scope.
 
@@ -166,10 +166,25 @@ Example C09_add_switch_ok_ex :
   snd r = Ok 50 /\ List.length (gnodes (sg (fst r))) = 13%nat.
 Proof. exact ex_switch_ok. Qed.
 
-(* ---- Node.add_component: composite sliver adder, duplicate caller-supplied child ids are found late *)
+(* ---- Node.add_component.  `precheck` = does the running library's add_component_sliver check, before it adds
+   anything, that the parent exists and the ids it is going to add are new and pairwise distinct
+   (proposed_fixes/C09-6.patch; read off its source by the harness).
+   With it: atomic for EVERY state, argument and exception. *)
+Theorem C09_add_component_atomic_with_precheck :
+  forall fl pn name node_id spec_given nic sub_ids cat pure s s' e,
+  op_add_component true fl pn name node_id spec_given nic sub_ids cat pure s = (s', Err e) -> sg s' = sg s.
+Proof. exact add_component_atomic_precheck. Qed.
+Print Assumptions C09_add_component_atomic_with_precheck.
+Example C09_add_component_atomic_with_precheck_ex :
+  let r := op_add_component true Substrate 1 (S "nic2") (Some 20) true true true (Ok (spec_smartnic 21 22 22)) None
+                            (mkSt g_two_nodes supply) in
+  snd r = Err EQuery /\ sg (fst r) = g_two_nodes.
+Proof. exact ex_component_precheck. Qed.
+
+(* Without it: composite sliver adder, duplicate caller-supplied child ids are found late *)
 Theorem C09_add_component_atomic_refuted :
   exists fl pn name nid a b c cat pure g fresh s' e,
-    wf_graph g = true /\ op_add_component fl pn name nid a b c cat pure (mkSt g fresh) = (s', Err e) /\ sg s' <> g.
+    wf_graph g = true /\ op_add_component false fl pn name nid a b c cat pure (mkSt g fresh) = (s', Err e) /\ sg s' <> g.
 Proof. exact add_component_atomic_refuted. Qed.
 Print Assumptions C09_add_component_atomic_refuted.
 
@@ -177,17 +192,17 @@ Print Assumptions C09_add_component_atomic_refuted.
    component model (CatalogException), invalid property among valid ones, missing model or ids, wrong number
    of ids (RuntimeError) - for every state and every argument *)
 Theorem C09_add_component_atomic_nonquery_partial :
-  forall fl pn name node_id spec_given nic sub_ids cat pure s s' e,
-  op_add_component fl pn name node_id spec_given nic sub_ids cat pure s = (s', Err e) ->
+  forall pc fl pn name node_id spec_given nic sub_ids cat pure s s' e,
+  op_add_component pc fl pn name node_id spec_given nic sub_ids cat pure s = (s', Err e) ->
   e <> EQuery -> sg s' = sg s.
 Proof. exact add_component_atomic_nonquery. Qed.
 Print Assumptions C09_add_component_atomic_nonquery_partial.
 Example C09_add_component_unknown_model_ex :
-  let r := op_add_component Experiment 1 (S "x1") None true true false (Err ECatalog) None (mkSt g_two_nodes supply) in
+  let r := op_add_component false Experiment 1 (S "x1") None true true false (Err ECatalog) None (mkSt g_two_nodes supply) in
   snd r = Err ECatalog /\ sg (fst r) = g_two_nodes.
 Proof. exact ex_component_unknown_model. Qed.
 Example C09_add_component_ok_ex :
-  let r := op_add_component Experiment 1 (S "nic2") None true false false
+  let r := op_add_component false Experiment 1 (S "nic2") None true false false
              (Ok (mkCompSpec tNIC (Some (mkChildNs (S "n1-nic2-l2ovs") tOVS None [mkChildIf (S "nic2-p1") tSharedPort None]))))
              None (mkSt g_two_nodes supply) in
   snd r = Ok 50 /\ List.length (gnodes (sg (fst r))) = 12%nat.
@@ -199,7 +214,7 @@ Proof. exact ex_component_ok. Qed.
 Theorem C09_add_component_atomic_partial :
   forall fl pn name node_id spec_given nic sub_ids cat pure g fresh s' e,
   ids_fresh g (component_ids node_id cat fresh) = true ->
-  op_add_component fl pn name node_id spec_given nic sub_ids cat pure (mkSt g fresh) = (s', Err e) ->
+  op_add_component false fl pn name node_id spec_given nic sub_ids cat pure (mkSt g fresh) = (s', Err e) ->
   sg s' = g.
 Proof. exact add_component_atomic_fresh. Qed.
 Print Assumptions C09_add_component_atomic_partial.
@@ -209,3 +224,93 @@ Example C09_add_component_atomic_partial_ex :
   ids_fresh g_two_nodes (component_ids None (Ok (mkCompSpec tNIC (Some (mkChildNs (S "x") tOVS None
                                          [mkChildIf (S "p") tSharedPort None])))) supply) = true.
 Proof. exact ex_ids_fresh. Qed.
+
+(* ==== calls on existing elements ==== *)
+
+(* ModelElement.rename / set_property('name', v) (fix 6648cd3): scope uniqueness check, NAME_REGEX, then the write *)
+Theorem C09_rename_atomic : forall x kind new_name s s' e,
+  op_rename x kind new_name s = (s', Err e) -> sg s' = sg s.
+Proof. exact rename_atomic_all. Qed.
+Print Assumptions C09_rename_atomic.
+Example C09_rename_atomic_ex :
+  snd (op_rename 5 cNN (S "n1") (mkSt g_two_nodes supply)) = Err ETopology /\
+  sg (fst (op_rename 5 cNN (S "n1") (mkSt g_two_nodes supply))) = g_two_nodes /\
+  snd (op_rename 6 cComp (S "nic1") (mkSt g_two_nodes supply)) = Ok tt /\
+  snd (op_rename 8 cCP (S "nic1-p2") (mkSt g_two_nodes supply)) = Err ETopology /\
+  snd (op_rename 8 cCP (S "x") (mkSt g_two_nodes supply)) = Ok tt /\
+  snd (op_rename 5 cNN (S "x") (mkSt g_two_nodes supply)) = Err EValue.
+Proof. exact ex_rename. Qed.
+
+(* <element>.set_properties(kwargs): an invalid property among valid ones leaves the element as it was *)
+Theorem C09_set_properties_atomic : forall x pure new_rest s s' e,
+  op_set_props x pure new_rest s = (s', Err e) -> sg s' = sg s.
+Proof. exact set_props_atomic_all. Qed.
+Print Assumptions C09_set_properties_atomic.
+
+(* Topology.remove_link (fix 65db950): unknown name, or a link made by connect_interface / peer *)
+Theorem C09_remove_link_atomic : forall name s s' e,
+  op_remove_link name s = (s', Err e) -> sg s' = sg s.
+Proof. exact remove_link_atomic_all. Qed.
+Print Assumptions C09_remove_link_atomic.
+
+(* Interface.add_child_interface *)
+Theorem C09_add_child_interface_atomic : forall fl x name node_id lv pure s s' e,
+  op_add_child fl x name node_id lv pure s = (s', Err e) -> sg s' = sg s.
+Proof. exact add_child_atomic_all. Qed.
+Print Assumptions C09_add_child_interface_atomic.
+
+(* NetworkService.unpeer (fix 24d5e04): "do not peer" is raised before anything is touched - every
+   TopologyException of unpeer leaves the graph unchanged, for every graph *)
+Theorem C09_unpeer_topology_exception_atomic : forall a b s s',
+  op_unpeer a b s = (s', Err ETopology) -> sg s' = sg s.
+Proof. exact unpeer_topo_all. Qed.
+Print Assumptions C09_unpeer_topology_exception_atomic.
+(* ... and every failure when the two services have no peering *)
+Theorem C09_unpeer_not_peering_atomic : forall a b s s' e,
+  op_unpeer a b s = (s', Err e) ->
+  (forall m t, peerings (sg s) a b = Ok (m, t) -> m = []) ->
+  sg s' = sg s.
+Proof. exact op_unpeer_not_peering. Qed.
+Print Assumptions C09_unpeer_not_peering_atomic.
+Example C09_unpeer_ex :
+  wf_graph g_peered = true /\
+  snd (op_remove_link (S "a-b-link") (mkSt g_peered supply)) = Err ETopology /\
+  snd (op_unpeer 30 33 (mkSt g_peered supply)) = Err ETopology /\
+  sg (fst (op_unpeer 30 33 (mkSt g_peered supply))) = g_peered /\
+  snd (op_unpeer 30 31 (mkSt g_peered supply)) = Ok tt /\
+  List.length (gnodes (sg (fst (op_unpeer 30 31 (mkSt g_peered supply))))) = 3%nat.
+Proof. exact ex_peered. Qed.
+
+(* Topology.add_port_mirror_service = two assertions + the service constructor with one interface *)
+Theorem C09_port_mirror_atomic : forall fl name node_id to_if from_given pure g fresh s' e,
+  wf_graph g = true ->
+  (forall i, to_if = Some i -> ifaces_typed g [i] = true /\ supply_apart node_id fresh [i] = true) ->
+  op_port_mirror fl name node_id to_if from_given pure (mkSt g fresh) = (s', Err e) -> sg s' = g.
+Proof. exact port_mirror_atomic. Qed.
+Print Assumptions C09_port_mirror_atomic.
+
+(* NetworkService.connect_interface called directly on an existing service.  `rollback` = does the running library
+   remove the ServicePort again when the link cannot be made (proposed_fixes/C09-7.patch).
+   Either way every TopologyException (guardrails, not owned, already connected, derived port name already on the
+   service or derived link name in use - fix 8b1a93d -, substrate) is raised before anything is made. *)
+Theorem C09_connect_interface_topology_exception_atomic : forall rb fl ns i s s',
+  op_connect rb fl ns i s = (s', Err ETopology) -> sg s' = sg s.
+Proof. exact connect_topo_all. Qed.
+Print Assumptions C09_connect_interface_topology_exception_atomic.
+(* With the rollback: atomic for every exception *)
+Theorem C09_connect_interface_atomic_with_rollback : forall fl ns i g fresh s' e,
+  wf_graph g = true -> node_cls g ns = Ok cNS ->
+  op_connect true fl ns i (mkSt g fresh) = (s', Err e) -> sg s' = g.
+Proof. exact connect_rb_atomic. Qed.
+Print Assumptions C09_connect_interface_atomic_with_rollback.
+Example C09_connect_interface_atomic_with_rollback_ex :
+  let r := op_connect true Experiment 9 (mkIface 4 (long_name 50)) (mkSt g_long_svc supply) in
+  snd r = Err EValue /\ sg (fst r) = g_long_svc /\ List.length (sfresh (fst r)) = 6%nat.
+Proof. exact ex_connect_rb_long. Qed.
+(* Without it the full statement is FALSE: a derived link name of 256 characters leaves the ServicePort *)
+Theorem C09_connect_interface_atomic_refuted :
+  exists fl ns i g fresh s',
+    wf_graph g = true /\ node_cls g ns = Ok cNS /\
+    op_connect false fl ns i (mkSt g fresh) = (s', Err EValue) /\ sg s' <> g.
+Proof. exact connect_atomic_refuted. Qed.
+Print Assumptions C09_connect_interface_atomic_refuted.
